@@ -131,11 +131,12 @@ func (tb *LTable) Remove(pos int) LValue {
 		// nothing to do
 	case i == larray-1 || i < 0:
 		oldval = tb.array[larray-1]
+		tb.array[larray-1] = LNil // a running ForEach / sort still sees this cell
 		tb.array = tb.array[:larray-1]
 	default:
 		oldval = tb.array[i]
 		copy(tb.array[i:], tb.array[i+1:])
-		tb.array[larray-1] = nil
+		tb.array[larray-1] = LNil
 		tb.array = tb.array[:larray-1]
 	}
 	return oldval
